@@ -555,6 +555,7 @@ fn c05_case_t<A: Subject>(run: &Run, cfg: &Cfg, st: &Start, word: &[Op], cut: us
     cfgv.cap += 48;
     let mut grown = vec![];
     for x in [r, twin] {
+      let mif = x.min_in_force;
       let (mut arena, path) = x.into_arena();
       match arena.truncate_(cfgv.cap as usize) {
         Some(Ok(())) if arena.capacity() == cfgv.cap as usize => {}
@@ -563,7 +564,9 @@ fn c05_case_t<A: Subject>(run: &Run, cfg: &Cfg, st: &Start, word: &[Op], cut: us
           return true;
         }
       }
-      grown.push(Runner::<A>::from_arena(&cfgv, arena, path));
+      let mut g = Runner::<A>::from_arena(&cfgv, arena, path);
+      g.min_in_force = mif;
+      grown.push(g);
     }
     twin = grown.pop().unwrap();
     r = grown.pop().unwrap();
@@ -599,6 +602,8 @@ fn c05_case_t<A: Subject>(run: &Run, cfg: &Cfg, st: &Start, word: &[Op], cut: us
   let img: Vec<u8> = r.a.allocated_memory().to_vec();
   let lives: Vec<(Meta4, u8)> = r.all_live().map(|l| (l.m, l.pat)).collect();
   let dead = r.dead.clone();
+  // the minimum segment size set before closing is stored in the file and stays in force after the reopen
+  let min_in_force = r.min_in_force;
   let (arena, path) = r.into_arena();
   let path = path.unwrap();
   if flush {
@@ -699,6 +704,7 @@ fn c05_case_t<A: Subject>(run: &Run, cfg: &Cfg, st: &Start, word: &[Op], cut: us
     c2.cap = want_cap as u32;
     let mut r2 = Runner::<A>::from_arena(&c2, Box::new(a2), None);
     r2.dead = dead;
+    r2.min_in_force = min_in_force;
     r2.first_alloc_done = true;
     for (m, pat) in &lives {
       r2.pinned.push(Live { h: None, m: *m, pat: *pat, needs_drop: false, owned: false, refs_delta: 0 });
